@@ -60,6 +60,7 @@ pub fn run<W: Write>(args: &[String], out: &mut W) {
         let s = wrap(wrapk, &decode(&alpha, idx));
         let line = match mode {
             "tokens" => guarded(|| lex::token_line(&s)),
+            "toks" => project_toks(&guarded(|| lex::token_line(&s))),
             _ => panic!("unknown enum mode"),
         };
         if verbose {
@@ -73,5 +74,17 @@ pub fn run<W: Write>(args: &[String], out: &mut W) {
                 block_start = idx + 1;
             }
         }
+    }
+}
+
+/// projection: the tokens and whether the scan ended in EOF or an error
+pub fn project_toks(line: &str) -> String {
+    match line.find(" | ") {
+        Some(i) => {
+            let rest = &line[i + 3..];
+            let word = rest.split(' ').next().unwrap_or("");
+            format!("{} | {}", &line[..i], word)
+        }
+        None => line.to_string(),
     }
 }
